@@ -128,6 +128,10 @@ def _continue_case(case):
     return {"failures": fails, "canon": core.config_key(c), "outcome": (n1, tuple(pts[n1:])), "nontrivial": len(pts) > n1 + 1, "evals": len(pts)}
 
 
+# off-grid diagnostic points for the evaluation_points option (never dyadic, so they are no quadrature points)
+EP = [(0.123456, 0.654321), (0.777, 0.333), (0.501, 0.499)]
+
+
 def run_case(case):
     c = case["config"]
     if "then" in c:
@@ -143,7 +147,7 @@ def run_case(case):
         r = oe()
         bens = [o.benefit for o in _objects(sa) if getattr(o, "benefit", None) is not None]
         errs = [o.error for o in _objects(sa) if getattr(o, "error", None) is not None]
-        log.append(("E", r[0], len(seen), np.array(op.get_result(), dtype=float).copy(),
+        log.append(("E", r[0], len(seen - set(EP)), np.array(op.get_result(), dtype=float).copy(),
                     min([float(np.min(b)) for b in bens] or [0.0]), min([float(np.min(e)) for e in errs] or [0.0])))
         return r
 
@@ -152,7 +156,8 @@ def run_case(case):
         return orf()
     sa.evaluate_operation, sa.refine = ev_wrap, rf_wrap
     R = sa.performSpatiallyAdaptiv(lm[0], lm[1], eo, tol=tol, max_evaluations=mx, min_evaluations=mn, print_output=False,
-                                   recalculate_frequently=strat.endswith("_recalc"))
+                                   recalculate_frequently=strat.endswith("_recalc"),
+                                   evaluation_points=EP if strat.endswith("_ep") else None)
     evs = [x for x in log if x[0] == "E"]
     pts, errs, surplus = list(R[6]), list(R[5]), list(R[7])
     fails = []
@@ -201,7 +206,8 @@ def run_case(case):
 
 def main(ctx):
     q = ctx.tier == "quick"
-    strategies = ["dw", "dw_noreb", "es", "es_v1", "es_auto", "cell", "es_gl", "es_gl_recalc", "es_recalc"]
+    # *_ep: the evaluation_points option (interpolation-error diagnostics at user-supplied off-grid points after every evaluation)
+    strategies = ["dw", "dw_noreb", "es", "es_v1", "es_auto", "cell", "es_gl", "es_gl_recalc", "es_recalc", "dw_ep", "es_ep"]
     kinds = ["peak", "vec", "zero", "disc", "peak_tiny", "vec_scaled"] if q else ["peak", "vec", "zero", "disc", "c0", "vec3", "peak_tiny", "vec_scaled"]
     norms = [1, 2, "inf"]
     base = [{"config": {"strategy": s, "integrand": k, "norm": n, "tol": -1, "min_evaluations": 1, "max_evaluations": 90 if q else 150}}
